@@ -94,6 +94,8 @@ const V_SIGMOID: u8 = 17;
 const V_SOFTMAX: u8 = 18;
 const V_COND: u8 = 19;
 const V_COST: u8 = 20;
+const V_ACT: u8 = 21;
+const V_STACK: u8 = 22;
 
 impl Gen {
     pub fn new(seed: u64, p: Profile) -> Gen {
@@ -113,7 +115,7 @@ impl Gen {
         }
         // vocabulary subset
         let mut vocab: Vec<(u8, u32)> = Vec::new();
-        let ring: [(u8, u32); 12] = [(V_ADD, 10), (V_SUB, 6), (V_MUL, 10), (V_NEG, 3), (V_SCALE, 3), (V_SUM, 4), (V_RESHAPE, 3), (V_MATMUL, 7), (V_CONV, 2), (V_RELU, 3), (V_AXPY, 2), (V_COND, 2)];
+        let ring: [(u8, u32); 14] = [(V_ADD, 10), (V_SUB, 6), (V_MUL, 10), (V_NEG, 3), (V_SCALE, 3), (V_SUM, 4), (V_RESHAPE, 3), (V_MATMUL, 7), (V_CONV, 2), (V_RELU, 3), (V_AXPY, 2), (V_COND, 2), (V_ACT, 3), (V_STACK, 2)];
         for (k, w) in ring {
             if matches!(k, V_ADD | V_MUL) || rng.chance(7, 10) {
                 vocab.push((k, w));
@@ -373,6 +375,20 @@ impl Gen {
                 };
                 let dst = self.dst_for(sim, &[x]);
                 out.push(Ev::Build { dst, op, args: vec![x] });
+            }
+            V_ACT => {
+                let act = if self.regime == Regime::Int { Act::Relu } else { *self.rng.pick(&[Act::Relu, Act::Sigmoid, Act::Softmax]) };
+                let dst = self.dst_for(sim, &[x]);
+                out.push(Ev::Build { dst, op: Op::Activation { act, detach: self.rng.chance(1, 2) }, args: vec![x] });
+            }
+            V_STACK => {
+                let same: Vec<Slot> = sim.live_slots().into_iter().filter(|s| Self::dims_of(sim, *s) == xd).collect();
+                let n = 1 + self.rng.below(3);
+                let args: Vec<Slot> = (0..n).map(|i| if i == 0 { x } else { *self.rng.pick(&same) }).collect();
+                if numel(&xd) * n <= 48 {
+                    let dst = self.fresh_slot();
+                    out.push(Ev::Build { dst, op: Op::Stack { views: self.rng.chance(1, 2) }, args });
+                }
             }
             V_SUM => {
                 // sum(0) is not generated: whether "the identity" returns the same node or a copy is not
